@@ -169,7 +169,7 @@ def cert_goal(ids, call, values, real_valued):
     return ("Goal True. chk2 %d (Rabs (re %s - %s) <= %s) %d (Rabs (im %s - %s) <= %s). exact I. Qed.\n" % (
         ids[0], call, rlit(values[0]), rlit(tol_of(values[0])), ids[1], call, rlit(values[1]), rlit(tol_of(values[1]))))
 
-def run_certs(goals, tag, nshards=None, timeout=600):
+def run_certs(goals, tag, nshards=None, timeout=1500):
     """goals: list of (cost, text, [ids]).  Writes cert_k.v shards under .cache/, runs coqc on them in parallel,
     returns ({id: 'OK'|'FAIL'}, errors, seconds).  ids with no verdict line are absent from the dict."""
     d = os.path.join(CACHE, "certs_%s_%d" % (tag, os.getpid()))
